@@ -741,9 +741,10 @@ func (a *Authenticator) handleSessionResumption(ctx context.Context, sessionID s
 
 	slog.Info(fmt.Sprintf("🔐 SERVER: Found session %s, resuming...", redactSessionID(sessionID)), "destination", "cedar")
 
-	// Renew the session lease
+	// Renew the session lease. The entry is the one the cache already holds, so
+	// renewing it in place is all that is needed: storing it again would re-insert a
+	// session that was invalidated on another goroutine since the lookup above.
 	entry.RenewLease()
-	cache.Store(entry)
 
 	// Check if client wants a response
 	wantResponse := false
@@ -1585,9 +1586,9 @@ func (a *Authenticator) resumeSession(ctx context.Context, entry *SessionEntry, 
 		}
 	}
 
-	// Renew the session lease
+	// Renew the session lease in place (see handleSessionResumption: storing the
+	// entry again would undo an invalidation that happened since it was looked up)
 	entry.RenewLease()
-	cache.Store(entry)
 
 	// Set up encryption with cached key (only for session resumption)
 	if len(negotiation.GetSharedSecret()) > 0 {
